@@ -19,7 +19,14 @@ for sid in ids:
     meta = json.load(open(mp, encoding="utf-8"))
     props = [meta["property"]] + ([] if only_target else [p for p in meta.get("checks", {}) if p != meta["property"]])
     p = subprocess.run([os.path.join(V, "tools/seeded.py"), "run", d] + props, stdout=subprocess.PIPE, stderr=subprocess.STDOUT, text=True, cwd=V)
-    res = json.loads(p.stdout.strip().splitlines()[-1])
+    try:
+        res = json.loads(p.stdout.strip().splitlines()[-1])
+    except Exception:
+        print("| %s | %s | (the run did not finish: %s) | ERROR | |" % (sid, meta["property"], p.stdout.strip()[-200:].replace("\n", " ")), flush=True)
+        continue
+    if res.get("error"):
+        print("| %s | %s | (%s) | ERROR | |" % (sid, meta["property"], res["error"]), flush=True)
+        continue
     for prop, c in res.get("checks", {}).items():
         meta.setdefault("checks", {})[prop] = dict(caught=(c["rc"] == 1), rc=c["rc"], verdict=c["verdict"], how=c["note"])
     json.dump(meta, open(mp, "w", encoding="utf-8"), indent=1, ensure_ascii=False)
